@@ -297,6 +297,36 @@ fn destructor_panics<N: ArrayLength>(rep: &mut Report) {
             PANIC_ON_DROP.with(|p| *p.borrow_mut() = Some(victim));
             let _o: GenericArray<u8, N> = a.map(|x| { drop(x); 0u8 });
         });
+        rep.case("C05", "fold(owned) dropping inputs", n, victim, false, || {
+            let a = arr::<N>();
+            PANIC_ON_DROP.with(|p| *p.borrow_mut() = Some(victim));
+            let _ = a.fold(0usize, |acc, x| { drop(x); acc + 1 });
+        });
+        rep.case("C05", "zip(own,own) dropping inputs", n, victim, false, || {
+            let (a, b) = (arr::<N>(), arr::<N>());
+            PANIC_ON_DROP.with(|p| *p.borrow_mut() = Some(victim));
+            let _o: GenericArray<u8, N> = a.zip(b, |x, y| { drop(x); drop(y); 0u8 });
+        });
+        rep.case("C05", "zip(own,&) dropping inputs", n, victim, false, || {
+            let (a, b) = (arr::<N>(), arr::<N>());
+            PANIC_ON_DROP.with(|p| *p.borrow_mut() = Some(victim));
+            let _o: GenericArray<u8, N> = a.zip(&b, |x, _y| { drop(x); 0u8 });
+        });
+        rep.case("C05", "zip(&,own) dropping inputs", n, victim, false, || {
+            let (a, b) = (arr::<N>(), arr::<N>());
+            PANIC_ON_DROP.with(|p| *p.borrow_mut() = Some(n + victim));
+            let _o: GenericArray<u8, N> = (&a).zip(b, |_x, y| { drop(y); 0u8 });
+        });
+        rep.case("C05", "into_iter().fold dropping inputs", n, victim, false, || {
+            let a = arr::<N>();
+            PANIC_ON_DROP.with(|p| *p.borrow_mut() = Some(victim));
+            let _ = a.into_iter().fold(0usize, |acc, x| { drop(x); acc + 1 });
+        });
+        rep.case("C05", "map(Box) dropping inputs", n, victim, false, || {
+            let a: Box<GenericArray<P, N>> = Box::new(arr::<N>());
+            PANIC_ON_DROP.with(|p| *p.borrow_mut() = Some(victim));
+            let _o: Box<GenericArray<u8, N>> = a.map(|x| { drop(x); 0u8 });
+        });
         rep.case("C05", "try_from_iter(too short) builder torn down", n, victim, false, || {
             let mut left = n.saturating_sub(1).max(victim + 1).min(n.saturating_sub(1));
             let src = std::iter::from_fn(|| { if left == 0 { None } else { left -= 1; Some(mk()) } });
